@@ -348,7 +348,9 @@ func (r *run) settle() {
 			}
 			// the record joins the message table: it must not share key, direction and counter with an earlier one
 			if id, nf := r.addHonest(from, c, pt, true); nf != nil {
-				r.emit(Event{Ev: "send", S: from.def.Name, Ok: true, Pt: pt, N: headerN(c), M: id, New: []Flat{*nf}, Leak: r.leak(c), Obs: r.observe(from)})
+				// ("sealed" with no session: the settle suffix's own deliveries are not logged, so the event must not
+				// count as use of the session for the authentication monitors; it only extends the message table)
+				r.emit(Event{Ev: "sealed", S: "-", Pt: pt, N: headerN(c), M: id, New: []Flat{*nf}, Leak: r.leak(c)})
 			}
 			isApp, out, err := to.s.Deliver(nil, c, r.now)
 			return err == nil && isApp && string(out) == string(r.ptBytes(pt))
